@@ -423,7 +423,14 @@ func settle(c *fw.Ctx, all []kase, fails []failure, agree []int) error {
 		fmt.Fprintf(os.Stderr, "exact native: %d cases in %.1fs\n", len(exact), time.Since(t0).Seconds())
 	}
 	stats := map[string]int{}
-	for i, f := range fails {
+	// single-cause cases first: the first case that hits a finding becomes its witness
+	order := make([]int, len(fails))
+	for i := range order {
+		order[i] = i
+	}
+	sort.SliceStable(order, func(a, b int) bool { return len(atts[order[a]].set) < len(atts[order[b]].set) })
+	for _, i := range order {
+		f := fails[i]
 		if !refOK[i] {
 			continue
 		}
